@@ -155,6 +155,12 @@ pub struct InputFileStream {
 impl Read for InputFileStream {
     #[inline]
     fn read(&mut self, buf: &mut [u8]) -> std::io::Result<usize> {
+        #[cfg(feature = "verif_hooks")]
+        let buf = {
+            let n = crate::machine::verif_hooks::short_read_len(buf.len());
+            &mut buf[..n]
+        };
+
         self.file.read(buf)
     }
 }
